@@ -192,3 +192,54 @@ contract('verif:contracts/harness.py::compute_then_partials', ['C26'], DOT_LEMMA
          modifies=["outputs['c']", 'partials'], inline={'compute', 'compute_partials'}, defs=DUAL, native=native_dot('DotProductComp'),
          name='lemma:DotProductComp partials are the derivative of compute',
          canaries=[('partials w.r.t. a and b swapped', ("partials[product['c_name'], product['a_name']] = b.ravel()", "partials[product['c_name'], product['a_name']] = a.ravel()"), 'post', DOT + '::DotProductComp.compute_partials')])
+
+
+# ---- AddSubtractComp.compute: out = sum_k sf_k * in_k (element-wise), for 2 and 3 inputs, length 1 (1-d variables) -----
+ADD = 'openmdao/components/add_subtract_comp.py'
+
+
+def native_add(vals, np, om):
+    from pyvc.native_helpers import A, Fl
+    eq = vals['self']['_equations'][0]
+    names = list(eq[1])
+    sfs = None if eq[5] is None else [float(x) for x in A(eq[5])]
+    ins = _decode(vals['inputs'], np)
+    n = len(ins[names[0]])
+    comp = om.AddSubtractComp('out', names, vec_size=n, scaling_factors=sfs)
+    return dict(self=comp, inputs=ins, outputs=_decode(vals['outputs'], np)), dict(n=n)
+
+
+for _names in (('a', 'b'), ('a', 'b', 'c')):
+    for _sf in ('given', 'none'):
+        k = len(_names)
+        eqs = ListT(TupleT('out', ListT(*_names), Size('n'), 1, Real(), (Arr(k) if _sf == 'given' else None), OpaqueT('kwargs')))
+        total = ' + '.join("inputs[%r][i] * %s" % (nm, ('self._equations[0][5][%d]' % j) if _sf == 'given' else '1') for j, nm in enumerate(_names))
+        contract(ADD + '::AddSubtractComp.compute', ['C26'],
+                 dict(self=Obj('AddSubtractComp', options=DictT({'complex': False}), _equations=eqs),
+                      inputs=DictT({nm: Arr('n') for nm in _names}), outputs=DictT({'out': Arr('n')})),
+                 ensures=["len(outputs['out']) == n", "all(approx(outputs['out'][i], %s) for i in range(n))" % total],
+                 modifies=["outputs['out']"], native=native_add,
+                 name=ADD + '::AddSubtractComp.compute[%d inputs, scaling factors %s]' % (k, _sf),
+                 canaries=[('scaling factor of the first input applied to all', ('sf = scaling_factors[i]', 'sf = scaling_factors[0]'), 'post')] if (_sf == 'given' and k == 3) else [])
+
+
+# ---- VectorMagnitudeComp: m[r] = sqrt(sum_i a[r,i]^2); partial (C order) a[r,i]/m[r] ---------------------------
+VM = 'openmdao/components/vector_magnitude_comp.py'
+
+
+def vm_self():
+    return Obj('VectorMagnitudeComp', _magnitudes=ListT(DictT({'in_name': 'a', 'mag_name': 'c', 'vec_size': Size('nv'), 'length': Size('nl')})))
+
+
+def vm_inputs(dtype='real'):
+    return DictT({'a': Arr('nv', 'nl', dtype=dtype)})
+
+
+contract(VM + '::VectorMagnitudeComp.compute', ['C26'], dict(self=vm_self(), inputs=vm_inputs(), outputs=DictT({'c': Arr('nv')})),
+         ensures=["len(outputs['c']) == nv",
+                  "all(outputs['c'][r] >= 0 and approx(outputs['c'][r] * outputs['c'][r], Sum(nl, lambda i: inputs['a'][r, i] * inputs['a'][r, i])) for r in range(nv))"],
+         modifies=["outputs['c']"], native=native_dot('VectorMagnitudeComp'), name=VM + '::VectorMagnitudeComp.compute',
+         canaries=[('square root dropped', ("np.sqrt(np.einsum('ni,ni->n', a, a))", "np.einsum('ni,ni->n', a, a)"), 'post')])
+
+# (the derivative lemma for VectorMagnitudeComp relates two independently computed square roots through universally
+#  quantified nonlinear facts; z3 does not close it within the budget, so the partials stay in the bounded tier)
